@@ -68,8 +68,8 @@ Cands ==
                         ps |-> IF ParamNames(s) = {} THEN <<>>
                                ELSE IF ParamNames(s) = {":p:"} THEN <<[name |-> "p", n |-> a]>>
                                ELSE <<[name |-> "p", n |-> a], [name |-> "q", n |-> b]>>] :
-                         a \in (IF ParamNames(s) = {} THEN {0} ELSE {e \in Free : KindOf(e) \in {"val", "opt"}}),
-                         b \in (IF ":q:" \in ParamNames(s) THEN {e \in Free : KindOf(e) \in {"val", "opt"}} ELSE {0})} : s \in Tmpls}
+                         a \in (IF ParamNames(s) = {} THEN {0} ELSE {e \in Free : KindOf(e) \in {"val", "opt", "with"}}),
+                         b \in (IF ":q:" \in ParamNames(s) THEN {e \in Free : KindOf(e) \in {"val", "opt", "with"}} ELSE {0})} : s \in Tmpls}
           ELSE {})
     \cup (IF want = "apply"
           THEN {[k |-> "apply", src |-> s, f |-> f, fp |-> fp] :
@@ -268,13 +268,25 @@ FO_Tmpls == {<<Chunk("t"), Ref(pB)>>, <<Ref(pA), Chunk("-"), Ref(pSX)>>, <<Chunk
 FO_Bodies == {"f"}
 FO_Preds == {"eq", "truthy"}
 FO_Leaves == <<[p |-> pA, vals |-> {I(0), I(1), Bv(FALSE), Nv, Sv(<<>>), Str("x"), Sv(<<Ref(pB)>>), Sv(<<Chunk("x"), Ref(pB)>>), Lv(<<>>), Lv(<<I(0), Sv(<<Ref(pB)>>)>>)}, extra |-> FALSE],
-               [p |-> <<"D">>, vals |-> {Dv([k \in {"U"} |-> Sv(<<Ref(pB)>>)])}, extra |-> FALSE],
+               \* D is read by Option('D') only (never spliced into a template: str() of a section contains braces):
+               \* templated strings inside a section, inside a section in a list, inside a nested list
+               [p |-> <<"D">>, vals |-> {Dv([k \in {"U"} |-> Sv(<<Ref(pB)>>)]), Lv(<<Dv([k \in {"U"} |-> Sv(<<Ref(pB)>>)])>>),
+                                         Lv(<<Lv(<<Sv(<<Chunk("x"), Ref(pB)>>)>>)>>)}, extra |-> FALSE],
                [p |-> pB, vals |-> {I(1), Str("y"), Sv(<<Ref(pC)>>)}, extra |-> FALSE],
                [p |-> pC, vals |-> {I(0)}, extra |-> FALSE],
                [p |-> pSX, vals |-> {I(1), Sv(<<Ref(pB)>>)}, extra |-> FALSE],
                [p |-> pSY, vals |-> {I(0)}, extra |-> FALSE],
                [p |-> <<"L">>, vals |-> {Lv(<<I(0), I(1)>>), Lv(<<I(0)>>)}, extra |-> FALSE],
                [p |-> <<"Z">>, vals |-> {I(7)}, extra |-> TRUE]>>
+
+\* family "tmplparams" (C09, C03): a template parameter that is itself a wrapper pinning a key the text reads
+FTP_Kinds == {"opt", "with", "tmpl"}
+FTP_Paths == {pA, pB}
+FTP_Tmpls == {<<Ref(pA), Chunk("-"), Par("p")>>, <<Par("p"), Ref(pB)>>}
+FTP_Presets == {Dv([k \in {"B"} |-> I(5)]), Dv([k \in {"C"} |-> I(6)])}
+FTP_Leaves == <<[p |-> pA, vals |-> {I(1), Sv(<<Ref(pB)>>), Sv(<<Chunk("x"), Ref(pC)>>)}, extra |-> FALSE],
+                [p |-> pB, vals |-> {I(1), I(2), Sv(<<Ref(pC)>>)}, extra |-> FALSE],
+                [p |-> pC, vals |-> {I(3), I(4)}, extra |-> FALSE]>>
 
 \* family "combinators" (C05, C06, C03, C10, C11): every combinator over options / constants / bodies
 FC_Kinds == {"val", "opt", "allopts", "pred", "apply", "bind", "switch", "case", "coalesce", "coll", "map", "fnapp"}
